@@ -2,7 +2,9 @@
 // Every configuration (asset list over three ledgers incl. repeats and a plain asset, every
 // subset of registered ledgers, every subset of failing ones, method, egoistic index) is run
 // under EVERY schedule (no bound): the completion order of the concurrent sub-calls is the
-// scheduler's choice.
+// scheduler's choice. A second, "wide" family has six distinct ledgers (more than any plausible
+// cap on parallel sub-calls) with one ledger missing / failing in first or last position, under a
+// preemption bound.
 package multi
 
 import (
@@ -54,7 +56,12 @@ func (plain) Equal(b channel.Asset) bool     { _, ok := b.(*plain); return ok }
 func (plain) Address() []byte                { return []byte("plain") }
 
 // two backend ids, so that deduplication by ledger id only and by backend id only both show
-var ledgers = []lid{{0, "L0"}, {0, "L1"}, {1, "L0"}}
+// Indices 4..9 form the "wide" family: six distinct ledgers on one backend, more than any bound on
+// the number of parallel sub-calls an implementation may have (index 3 is the plain asset, the
+// entry at that position is never registered).
+var ledgers = []lid{{0, "L0"}, {0, "L1"}, {1, "L0"}, {9, "unused"}, {0, "W0"}, {0, "W1"}, {0, "W2"}, {0, "W3"}, {0, "W4"}, {0, "W5"}}
+
+var wide = []int{4, 5, 6, 7, 8, 9}
 
 const plainIdx = 3
 
@@ -377,6 +384,41 @@ func scenarios(res *report.Result) []schedrun.Scenario {
 						}
 						out = append(out, schedrun.Scenario{Name: c.name(), Mode: explore.Preempt, Bound: bound, MaxSteps: 5000, Weight: 1 << uint(2*calls)})
 					}
+				}
+			}
+		}
+	}
+	// wide family: all six ledgers registered / one (first, last) missing, none / one (first, last)
+	// failing; the sub-calls overlap under the default schedule already (every call has a
+	// scheduling point between its start and its return), preemption bound 1 (2 in thorough)
+	wb := 1
+	if res.Thorough() {
+		wb = 2
+	}
+	all := uint(0)
+	for _, a := range wide {
+		all |= 1 << uint(a)
+	}
+	for _, m := range []string{"fund", "register", "progress", "withdraw"} {
+		for _, miss := range []int{-1, wide[0], wide[len(wide)-1]} {
+			for _, fl := range []int{-1, wide[0], wide[len(wide)-1]} {
+				if miss >= 0 && miss == fl {
+					continue
+				}
+				reg, fail := all, uint(0)
+				if miss >= 0 {
+					reg &^= 1 << uint(miss)
+				}
+				if fl >= 0 {
+					fail = 1 << uint(fl)
+				}
+				egos := []int{-1}
+				if m == "fund" {
+					egos = []int{-1, 0, 2, 5}
+				}
+				for _, e := range egos {
+					c := config{m, wide, reg, fail, e}
+					out = append(out, schedrun.Scenario{Name: c.name(), Mode: explore.Preempt, Bound: wb, MaxSteps: 5000, Weight: 64})
 				}
 			}
 		}
